@@ -96,6 +96,8 @@ def _same_mod_kw(a: str, b: str) -> bool:
 
 def moments(ctx: Context) -> None:
     f = ctx.func(f"{M}:get_mom_ts_1d")
+    from ..util import require_readable
+    require_readable(ctx.prog, f, ctx.func(f"{M}:get_mom_ts"))
     g = CFG(f.node)
     rets = returns_of(f)
     ctx.floor("R3", "return in get_mom_ts_1d", len(rets), 1)
